@@ -12,6 +12,7 @@ package main
 
 import (
 	"bytes"
+	"context"
 	"encoding/json"
 	"fmt"
 	"os"
@@ -81,8 +82,15 @@ func (w *world) runFreeRound() (panics []string) {
 				h := histOp{Thread: ti, Kind: o.Kind, URL: o.URL, In: o.Bundle}
 				h.Call = time.Since(t0).Nanoseconds()
 				switch o.Kind {
-				case "set":
-					err := c.Set(ctx, urls[o.URL], w.bs.bundles[o.Bundle])
+				case "set", "setc":
+					cx := ctx
+					if o.Kind == "setc" {
+						var cancel context.CancelFunc
+						cx, cancel = context.WithCancel(ctx)
+						cancel()
+						h.Kind = "set"
+					}
+					err := c.Set(cx, urls[o.URL], w.bs.bundles[o.Bundle])
 					h.Ret = time.Since(t0).Nanoseconds()
 					h.Out = "ok"
 					if err != nil {
@@ -221,7 +229,7 @@ func freeOne(r *hx.Run, raceBin, bundleDir, scratch string, i int, sc scenario, 
 	logp := filepath.Join(scratch, fmt.Sprintf("race-%d", i))
 	jb, _ := json.Marshal(freeJob{Scenario: sc, Bundles: bundleDir, Root: filepath.Join(scratch, fmt.Sprintf("f%d", i), "cache"), Rounds: rounds, Deadline: deadline})
 	cmd := exec.Command(raceBin, "--free-worker", string(jb))
-	cmd.Env = append(os.Environ(), "GORACE=halt_on_error=1 exitcode=66 log_path="+logp)
+	cmd.Env = append(os.Environ(), "GORACE=halt_on_error=1 exitcode=66 log_path="+logp, privateTmp(fmt.Sprintf("f%d", i)))
 	o, err := cmd.CombinedOutput()
 	if ee, ok := err.(*exec.ExitError); ok && ee.ExitCode() == 66 {
 		ms, _ := filepath.Glob(logp + ".*")
@@ -320,7 +328,7 @@ func runFreeProcs(r *hx.Run, self, bundleDir, scratch string, rounds int) map[st
 		var cmds []*exec.Cmd
 		for _, b := range writers {
 			cmd := exec.Command(self, "--proc-set", root, urls[0], bundleDir, b)
-			cmd.Env = append(os.Environ(), "GOMAXPROCS=2")
+			cmd.Env = append(os.Environ(), "GOMAXPROCS=2", privateTmp(fmt.Sprintf("p%d-%s", round, b)))
 			if err := cmd.Start(); err != nil {
 				r.Infra("free processes: start: %v", err)
 				return nil
@@ -356,15 +364,21 @@ func runFreeProcs(r *hx.Run, self, bundleDir, scratch string, rounds int) map[st
 				poll()
 			}
 		}
+		allStored := true
 		for _, cmd := range cmds {
 			if cmd.ProcessState == nil || !cmd.ProcessState.Success() {
-				bad = append(bad, [2]string{"free/procs/set-failed-without-fault", fmt.Sprintf("a writer process failed: %v", cmd.ProcessState)})
+				allStored = false // the statement does not promise that a store succeeds: recorded in the outcome only
 			}
 		}
 		// all three Sets returned: a read that starts now must yield one of the stored bundles, never a miss
 		b, gerr := c.Get(ctx, urls[0])
 		final := bs.classify(b, gerr)
-		if final != "A" && final != "B" && final != "C" {
+		if !allStored {
+			final += "(a writer process reported an error)"
+			if !w.allowed(0)[bs.classify(b, gerr)] {
+				bad = append(bad, [2]string{"free/procs/get-not-miss-or-stored-bundle", "after the writer processes ended, Get(u1) returned " + final})
+			}
+		} else if final != "A" && final != "B" && final != "C" {
 			bad = append(bad, [2]string{"free/procs/read-after-completed-writes", "after three writer processes returned, Get(u1) returned " + final})
 		}
 		for _, p := range w.postMortem() {
